@@ -1,9 +1,552 @@
-import MuduoVerif.Model.Rpc
-/-! C19 (placeholder while the proofs are being written) -/
+import MuduoVerif.Proofs.RpcLife
+/-!
+# C19 — every RPC completes exactly once with the response that carries its own id
+
+Property theorems only (lemmas: `Proofs/Rpc.lean`, `RpcCall.lean`, `RpcResp.lean` - the state invariant
+`CallInv`; `RpcOnce.lean` - the trace invariant `TraceInv`; `RpcServe.lean` - the serving side `SrvInv`;
+`RpcLife.lean` - halting, done-callbacks, destructor, `RpcServer`; `RpcShape.lean` - closed forms of the
+REQUEST branch and the specification `expected` of the reply).
+
+Quantification: `reach asserts hasServices acts` is the channel after **any** list `acts` of the model's
+atomic steps (`Model/Rpc.lean`): any number of `CallMethod` calls, each split into id fetch / insert under
+the lock / send, interleaved in any way with each other (= any number of calling threads) and with the loop
+thread's steps; arriving messages of every type with any id (answers in any order, duplicated, never sent,
+for ids not handed out yet or never), with payload, unparsable payload, error, both, neither; requests for
+known / unknown services and methods with parsable / unparsable payload, answered inside `CallMethod` or
+later (`fireDone`, at any time, any number of times); both build flavours (`asserts`), channels with and
+without services.  Steps that the code cannot take in a state (a `callSend` before its `callInsert`, a
+`recv` while the loop thread is between its critical section and the completion) are no-ops of the model,
+so arbitrary lists are exactly the interleavings.
+
+The log is newest-first: in `log = post ++ e :: pre` the events of `pre` happened before `e`, those of
+`post` after it.
+-/
 namespace MuduoVerif.C19
 open MuduoVerif.Rpc MuduoVerif.Gen.Rpc
 
+/-- the channel after a history of atomic steps -/
+abbrev reach (asserts hasServices : Bool) (acts : List Act) : Chan := run asserts hasServices acts
+
+/-- the lock scopes the atomic steps of the model stand for (extracted from the source) -/
 theorem tie_locks : callInsertUnderLock = true ∧ respLookupUnderLock = true ∧ respRunOutsideLock = true ∧ callSendOutsideLock = true := by
+  decide
+
+section
+variable (asserts hs : Bool) (acts : List Act)
+
+/-- **ids_unique**: the ids handed out on a channel are pairwise distinct, for any number of calling
+threads; they are positive; a REQUEST frame carries the id of its call; two frames with the same id
+belong to the same call; a call sends at most one frame -/
+theorem ids_unique :
+    (∀ j k, j < (reach asserts hs acts).nextCall → k < (reach asserts hs acts).nextCall → j ≠ k →
+      (reach asserts hs acts).idOf j ≠ (reach asserts hs acts).idOf k) ∧
+    (∀ k, k < (reach asserts hs acts).nextCall →
+      1 ≤ (reach asserts hs acts).idOf k ∧ (reach asserts hs acts).idOf k ≤ (reach asserts hs acts).counter) ∧
+    (∀ i k, Ev.sent i k ∈ (reach asserts hs acts).log →
+      i = (reach asserts hs acts).idOf k ∧ k < (reach asserts hs acts).nextCall) ∧
+    (∀ i j k, Ev.sent i j ∈ (reach asserts hs acts).log → Ev.sent i k ∈ (reach asserts hs acts).log → j = k) ∧
+    (∀ k, sentCount k (reach asserts hs acts).log ≤ 1) := by
+  have inv : CallInv (reach asserts hs acts) := CallInv.run asserts hs acts
+  have ti : TraceInv (reach asserts hs acts) := TraceInv.run asserts hs acts
+  have hw : ∀ i k, Ev.sent i k ∈ (reach asserts hs acts).log →
+      i = (reach asserts hs acts).idOf k ∧ k < (reach asserts hs acts).nextCall := by
+    intro i k h
+    obtain ⟨a, b⟩ := inv.wire i k h
+    exact ⟨a, inv.alive k (by rw [b]; simp)⟩
+  refine ⟨?_, inv.idpos, hw, ?_, ?_⟩
+  · intro j k hj hk hne he
+    exact hne (inv.inj j k hj hk he)
+  · intro i j k h1 h2
+    obtain ⟨a1, b1⟩ := hw i j h1
+    obtain ⟨a2, b2⟩ := hw i k h2
+    exact inv.inj j k b1 b2 (a1.symm.trans a2)
+  · intro k
+    rw [ti.sentOnce k]
+    split <;> omega
+
+/-- **complete_once**, the direction that needs no hypothesis: a closure runs at most once -/
+theorem complete_at_most_once (k : Nat) : ranCount k (reach asserts hs acts).log ≤ 1 :=
+  ((CallInv.run asserts hs acts).once k).1
+
+/-- **complete_once**, "with its own response": whenever the closure of call `k` runs, the message that
+made it run is a RESPONSE carrying the id of call `k`, it is the message that arrived last before the
+closure ran, and what the closure finds in its response object is the parsed payload of that very
+message (nothing, if the message has no payload or the payload does not parse) -/
+theorem complete_with_own_response (post pre : List Ev) (k i : Nat) (v : Option Nat)
+    (h : (reach asserts hs acts).log = post ++ Ev.ran k i v :: pre) :
+    i = (reach asserts hs acts).idOf k ∧
+    ∃ m mid pre', pre = mid ++ Ev.arrived m :: pre' ∧ m.type = .RESPONSE ∧ m.id = i ∧
+      v = m.payload.bind Body.parse ∧ ∀ e ∈ mid, e.isArrived = false := by
+  have inv : CallInv (reach asserts hs acts) := CallInv.run asserts hs acts
+  have ti : TraceInv (reach asserts hs acts) := TraceInv.run asserts hs acts
+  refine ⟨(inv.own k i v (by rw [h]; simp)).1, ?_⟩
+  obtain ⟨m, mid, pre', a, b, c, d, e⟩ := ti.cause post pre k i v h
+  exact ⟨m, mid, pre', a, b, c, by rw [d, view_eq], e⟩
+
+/-- **complete_once**, "exactly once if a response with its id arrives" (`_partial`: finding C19-F1, see
+`complete_once_full_false`).  A RESPONSE `m` arrives after the REQUEST frame of call `k` left with the id
+`m` carries.  Unless this is a build with `assert` and `m` has neither payload nor error: the closure of
+`k` has run exactly once (or the loop thread stands between its critical section and the completion of
+`k`); and if `m` is the first such response, the closure ran after this arrival with the payload of `m`
+(or the loop thread is about to run it with `m`) -/
+theorem complete_once_partial (post pre : List Ev) (m : Msg) (k : Nat)
+    (h : (reach asserts hs acts).log = post ++ Ev.arrived m :: pre) (ht : m.type = .RESPONSE)
+    (hs' : Ev.sent m.id k ∈ pre) (hw : asserts = false ∨ m.wellFormed) :
+    (ranCount k (reach asserts hs acts).log = 1 ∨ ∃ m', (reach asserts hs acts).pending = some (k, m')) ∧
+    (ranCount k pre = 0 →
+      (Ev.ran k m.id (m.payload.bind Body.parse) ∈ post ∧ ranCount k (reach asserts hs acts).log = 1) ∨
+      (reach asserts hs acts).pending = some (k, m)) := by
+  have inv : CallInv (reach asserts hs acts) := CallInv.run asserts hs acts
+  have ti : TraceInv (reach asserts hs acts) := TraceInv.run asserts hs acts
+  have hle := (inv.once k).1
+  have hw' : (reach asserts hs acts).asserts = false ∨ m.wellFormed := by
+    rw [(run_consts asserts hs acts).1]; exact hw
+  have hfirst : ranCount k pre = 0 →
+      (Ev.ran k m.id (m.payload.bind Body.parse) ∈ post ∧ ranCount k (reach asserts hs acts).log = 1) ∨
+      (reach asserts hs acts).pending = some (k, m) := by
+    intro hr
+    rcases ti.first post pre m k h ht hs' hr hw' with h1 | h1
+    · left
+      rw [view_eq] at h1
+      refine ⟨h1, ?_⟩
+      have : 0 < ranCount k (reach asserts hs acts).log := by
+        unfold ranCount
+        rw [List.countP_pos_iff]
+        exact ⟨_, by rw [h]; exact List.mem_append_left _ h1, by simp [isRan]⟩
+      omega
+    · exact Or.inr h1
+  refine ⟨?_, hfirst⟩
+  by_cases hr : ranCount k pre = 0
+  · rcases hfirst hr with h1 | h1
+    · exact Or.inl h1.2
+    · exact Or.inr ⟨m, h1⟩
+  · left
+    have : ranCount k pre ≤ ranCount k (reach asserts hs acts).log := by
+      rw [h]
+      unfold ranCount
+      rw [List.countP_append, List.countP_cons]
+      omega
+    omega
+
+/-- in the NDEBUG build the statement holds for every RESPONSE -/
+theorem complete_once_ndebug (post pre : List Ev) (m : Msg) (k : Nat)
+    (h : (reach false hs acts).log = post ++ Ev.arrived m :: pre) (ht : m.type = .RESPONSE)
+    (hs' : Ev.sent m.id k ∈ pre) (hr : ranCount k pre = 0) :
+    (Ev.ran k m.id (m.payload.bind Body.parse) ∈ post ∧ ranCount k (reach false hs acts).log = 1) ∨
+    (reach false hs acts).pending = some (k, m) :=
+  (complete_once_partial false hs acts post pre m k h ht hs' (Or.inl rfl)).2 hr
+
+/-- **complete_once**, one message at a time: in any reachable state in which the loop thread is idle, a
+RESPONSE whose id is that of a registered call `k` that has not completed - whether its REQUEST frame has
+left already or not - completes exactly that call: the entry is erased, the payload is parsed into the
+response object of `k` (if the message has one), the closure of `k` runs once and sees the parsed payload,
+the response object is freed once; no other call is affected.  (`_partial` in the same sense as
+`complete_once_partial`: not in a build with `assert` when the message has neither payload nor error.) -/
+theorem response_completes_partial (m : Msg) (k : Nat) (ht : m.type = .RESPONSE)
+    (hh : (reach asserts hs acts).halted = false) (hp : (reach asserts hs acts).pending = none)
+    (hk : Registered (reach asserts hs acts) k) (hid : (reach asserts hs acts).idOf k = m.id)
+    (hr : ranCount k (reach asserts hs acts).log = 0) (hw : asserts = false ∨ m.wellFormed) :
+    (reach asserts hs (acts ++ [.recv m, .finish])).log =
+      Ev.free (.resp k) :: Ev.ran k m.id (m.payload.bind Body.parse) ::
+        ((if m.payload.isSome then [Ev.parse k] else []) ++ Ev.arrived m :: (reach asserts hs acts).log) ∧
+    (reach asserts hs (acts ++ [.recv m, .finish])).outstanding = eraseKey m.id (reach asserts hs acts).outstanding ∧
+    (reach asserts hs (acts ++ [.recv m, .finish])).pending = none ∧
+    (∀ j, ranCount j (reach asserts hs (acts ++ [.recv m, .finish])).log =
+      (if j = k then 1 else 0) + ranCount j (reach asserts hs acts).log) ∧
+    (∀ j, freeCount j (reach asserts hs (acts ++ [.recv m, .finish])).log =
+      (if j = k then 1 else 0) + freeCount j (reach asserts hs acts).log) := by
+  have inv : CallInv (reach asserts hs acts) := CallInv.run asserts hs acts
+  have hlook : lookup m.id (reach asserts hs acts).outstanding = some k := by
+    rw [← hid]; exact inv.reg k hk hr (by rw [hp]; simp)
+  have ha : (reach asserts hs acts).asserts = asserts := (run_consts asserts hs acts).1
+  have hrun : reach asserts hs (acts ++ [.recv m, .finish]) = step (step (reach asserts hs acts) (.recv m)) .finish := by
+    simp [reach, run, List.foldl_append]
+  rw [hrun]
+  generalize reach asserts hs acts = s at hh hp hlook ha ⊢
+  have hc : ¬ (s.asserts = true ∧ ¬ respAssert m.payload.isSome m.err.isSome) := by
+    rintro ⟨h1, h2⟩
+    rcases hw with h | h
+    · rw [ha, h] at h1; cases h1
+    · exact h2 ((respAssert_iff m).mpr h)
+  have h1 : step s (.recv m) = { s with outstanding := eraseKey m.id s.outstanding, pending := some (k, m), log := Ev.arrived m :: s.log } := by
+    simp only [step, hh, recv, hp, (typeSwitch_response _).mpr ht, recvResponse, hlook, erases_eq]
+    simp [hc]
+  have h2 : step (step s (.recv m)) .finish =
+      { s with outstanding := eraseKey m.id s.outstanding
+               pending := none
+               log := Ev.free (.resp k) :: Ev.ran k m.id (m.payload.bind Body.parse) ::
+                        ((if m.payload.isSome then [Ev.parse k] else []) ++ Ev.arrived m :: s.log) } := by
+    rw [h1]
+    simp [step, hh, finish, runCount_eq, freeCount_eq, view_eq, respParses]
+  rw [h2]
+  have ht' : ∀ e ∈ (if m.payload.isSome then [Ev.parse k] else []), e = Ev.parse k := by
+    intro e he
+    split at he
+    · simpa using he
+    · cases he
+  refine ⟨rfl, rfl, rfl, fun j => ?_, fun j => ?_⟩
+  · have := (counts_finish k j m.id (m.payload.bind Body.parse) _ (Ev.arrived m :: s.log) ht').1
+    rw [ranCount_cons_foreign j (Ev.arrived m) _ rfl] at this
+    exact this
+  · have := (counts_finish k j m.id (m.payload.bind Body.parse) _ (Ev.arrived m :: s.log) ht').2
+    rw [freeCount_cons_foreign j (Ev.arrived m) _ rfl] at this
+    exact this
+
+/-- **no_foreign_completion**: the loop thread is idle and a RESPONSE arrives whose id is unknown (no
+registered call has it: never handed out, not inserted yet, foreign) or already consumed (the call with
+this id has completed).  Handling it (`recv` and the completion step) logs the arrival (and the abort, in
+the case of finding C19-F1) and nothing else - no closure runs, nothing is parsed into, nothing is freed -
+and `outstandings_` is left as it was -/
+theorem no_foreign_completion (m : Msg) (ht : m.type = .RESPONSE)
+    (hp : (reach asserts hs acts).pending = none)
+    (hun : ∀ k, Registered (reach asserts hs acts) k → (reach asserts hs acts).idOf k = m.id →
+      1 ≤ ranCount k (reach asserts hs acts).log) :
+    ((reach asserts hs (acts ++ [.recv m, .finish])).log = (reach asserts hs acts).log ∨
+     (reach asserts hs (acts ++ [.recv m, .finish])).log = Ev.arrived m :: (reach asserts hs acts).log ∨
+     (reach asserts hs (acts ++ [.recv m, .finish])).log = Ev.abort :: Ev.arrived m :: (reach asserts hs acts).log) ∧
+    (reach asserts hs (acts ++ [.recv m, .finish])).outstanding = (reach asserts hs acts).outstanding ∧
+    (reach asserts hs (acts ++ [.recv m, .finish])).pending = none ∧
+    (∀ k, ranCount k (reach asserts hs (acts ++ [.recv m, .finish])).log = ranCount k (reach asserts hs acts).log) ∧
+    (∀ k, freeCount k (reach asserts hs (acts ++ [.recv m, .finish])).log = freeCount k (reach asserts hs acts).log) := by
+  have inv : CallInv (reach asserts hs acts) := CallInv.run asserts hs acts
+  have hlook : lookup m.id (reach asserts hs acts).outstanding = none := by
+    cases hl : lookup m.id (reach asserts hs acts).outstanding with
+    | none => rfl
+    | some k =>
+      obtain ⟨a, b, c, _⟩ := inv.out m.id k hl
+      have := hun k b a
+      omega
+  have hrun : reach asserts hs (acts ++ [.recv m, .finish]) = step (step (reach asserts hs acts) (.recv m)) .finish := by
+    simp [reach, run, List.foldl_append]
+  rw [hrun]
+  generalize reach asserts hs acts = s at hp hlook ⊢
+  have key : (step (step s (.recv m)) .finish = s) ∨
+      (step (step s (.recv m)) .finish = { s with log := Ev.arrived m :: s.log }) ∨
+      (step (step s (.recv m)) .finish = { s with halted := true, log := Ev.abort :: Ev.arrived m :: s.log }) := by
+    by_cases hh : s.halted = true
+    · left; rw [step_halted s _ hh, step_halted s _ hh]
+    · have hh' : s.halted = false := by simpa using hh
+      by_cases hc : s.asserts = true ∧ ¬ respAssert m.payload.isSome m.err.isSome
+      · right; right
+        have h1 : step s (.recv m) = { s with halted := true, log := Ev.abort :: Ev.arrived m :: s.log } := by
+          simp [step, hh', recv, hp, (typeSwitch_response _).mpr ht, recvResponse, hc]
+        rw [h1, step_halted _ _ rfl]
+      · right; left
+        have h1 : step s (.recv m) = { s with log := Ev.arrived m :: s.log } := by
+          simp only [step, hh', recv, hp, (typeSwitch_response _).mpr ht, recvResponse, hlook]
+          simp [hc]
+        rw [h1]
+        simp [step, hh', finish, hp]
+  rcases key with h | h | h <;> rw [h]
+  · exact ⟨Or.inl rfl, rfl, hp, fun _ => rfl, fun _ => rfl⟩
+  · exact ⟨Or.inr (Or.inl rfl), rfl, hp, fun k => ranCount_cons_foreign k _ _ rfl, fun k => freeCount_cons_foreign k _ _ rfl⟩
+  · refine ⟨Or.inr (Or.inr rfl), rfl, hp, fun k => ?_, fun k => ?_⟩
+    · show ranCount k (Ev.abort :: Ev.arrived m :: s.log) = ranCount k s.log
+      rw [ranCount_cons_foreign k _ _ rfl, ranCount_cons_foreign k _ _ rfl]
+    · show freeCount k (Ev.abort :: Ev.arrived m :: s.log) = freeCount k s.log
+      rw [freeCount_cons_foreign k _ _ rfl, freeCount_cons_foreign k _ _ rfl]
+
+/-- **no double free, no use after free** (the heap-cell events of the model): the response object of a
+call is freed at most once - exactly when its closure has run -; after the free no event touches it (no
+parse, no closure run, no second free, no use); the caller side never uses a dead object at all -/
+theorem no_double_free_no_use_after_free :
+    (∀ k, freeCount k (reach asserts hs acts).log ≤ 1) ∧
+    (∀ k, freeCount k (reach asserts hs acts).log = ranCount k (reach asserts hs acts).log) ∧
+    (∀ post pre k, (reach asserts hs acts).log = post ++ Ev.free (.resp k) :: pre → ∀ e ∈ post, touches k e = false) ∧
+    (∀ c, Ev.uaf c ∈ (reach asserts hs acts).log → ∃ r, c = .closure r) := by
+  have inv : CallInv (reach asserts hs acts) := CallInv.run asserts hs acts
+  have ti : TraceInv (reach asserts hs acts) := TraceInv.run asserts hs acts
+  exact ⟨fun k => (inv.once k).2, ti.freeEq, ti.afterFree, ti.noUaf⟩
+
+/-- `~RpcChannel` (on the loop thread, between two messages): destructor and completions together free the
+response object of every registered call exactly once, and of no other call -/
+theorem destroy_frees_once (hp : (reach asserts hs acts).pending = none) (k : Nat) :
+    freeCount k (destroyEvents (reach asserts hs acts)) + freeCount k (reach asserts hs acts).log =
+      if Registered (reach asserts hs acts) k then 1 else 0 :=
+  Rpc.destroy_frees_once (CallInv.run asserts hs acts) (TraceInv.run asserts hs acts) hp k
+
+/-- **outstanding_exact**: `outstandings_` maps `i` to call `k` exactly when `k` fetched the id `i`, was
+inserted, has not completed and is not being completed by the loop thread right now; no key occurs twice,
+so the list is that map -/
+theorem outstanding_exact :
+    (∀ i k, lookup i (reach asserts hs acts).outstanding = some k ↔
+      ((reach asserts hs acts).idOf k = i ∧ Registered (reach asserts hs acts) k ∧
+       ranCount k (reach asserts hs acts).log = 0 ∧ ∀ m, (reach asserts hs acts).pending ≠ some (k, m))) ∧
+    ((reach asserts hs acts).outstanding.map Prod.fst).Nodup ∧
+    (∀ i k, (i, k) ∈ (reach asserts hs acts).outstanding ↔ lookup i (reach asserts hs acts).outstanding = some k) := by
+  have inv : CallInv (reach asserts hs acts) := CallInv.run asserts hs acts
+  have ti : TraceInv (reach asserts hs acts) := TraceInv.run asserts hs acts
+  refine ⟨?_, ti.keys, ?_⟩
+  · intro i k
+    constructor
+    · intro h
+      obtain ⟨a, b, c, _, e⟩ := inv.out i k h
+      exact ⟨a, b, c, e⟩
+    · rintro ⟨a, b, c, e⟩
+      rw [← a]
+      exact inv.reg k b c e
+  · intro i k
+    exact ⟨lookup_of_mem _ ti.keys i k, mem_of_lookup _ i k⟩
+
+/-- a call that is registered has either completed, or is being completed, or is in `outstandings_`:
+an inserted call is never lost -/
+theorem registered_accounted (k : Nat) (h : Registered (reach asserts hs acts) k) :
+    ranCount k (reach asserts hs acts).log = 1 ∨ (∃ m, (reach asserts hs acts).pending = some (k, m)) ∨
+    lookup ((reach asserts hs acts).idOf k) (reach asserts hs acts).outstanding = some k := by
+  have inv : CallInv (reach asserts hs acts) := CallInv.run asserts hs acts
+  by_cases hr : ranCount k (reach asserts hs acts).log = 0
+  · by_cases hp : ∃ m, (reach asserts hs acts).pending = some (k, m)
+    · exact Or.inr (Or.inl hp)
+    · exact Or.inr (Or.inr (inv.reg k h hr (fun m hm => hp ⟨m, hm⟩)))
+  · have := (inv.once k).1
+    left; omega
+
+/-- **one_reply**.  Request number `r` (the `r`-th REQUEST the channel handled) was the message `m`.
+Hypothesis on the service (`ServiceDoneOnce`): it invokes a done-callback only while it holds it.  Then:
+the channel has sent at most one RESPONSE for `r`; exactly one unless the service still holds the
+done-callback (possible only for a valid request to a method that answers later); every RESPONSE for `r`
+carries the id of `m` and is the reply `expected` demands (`expected_spec`: the service's answer, or
+NO_SERVICE / NO_METHOD / INVALID_REQUEST); the service was called exactly once if the request is valid,
+else not at all, with the parsed request; the reply's response object is freed at most once; no
+done-callback is used after it deleted itself -/
+theorem one_reply (hsvc : ServiceDoneOnce asserts hs acts) (r : Nat) (m : Msg)
+    (hr : (reach asserts hs acts).reqs r = some m) :
+    replyCount r (reach asserts hs acts).log ≤ 1 ∧
+    (held r (reach asserts hs acts).closures = 0 → replyCount r (reach asserts hs acts).log = 1) ∧
+    (held r (reach asserts hs acts).closures ≠ 0 → m.meth = some .defer ∧ (expected hs m).1.isSome = true) ∧
+    (∀ id p e, Ev.reply r id p e ∈ (reach asserts hs acts).log → id = m.id ∧ (p, e) = expected hs m) ∧
+    dispatchCount r (reach asserts hs acts).log = (if (expected hs m).1.isSome then 1 else 0) ∧
+    (∀ p, Ev.dispatch r p ∈ (reach asserts hs acts).log → m.request.parse = some p) ∧
+    freeSrvCount r (reach asserts hs acts).log ≤ 1 ∧
+    (∀ c, Ev.uaf c ∉ (reach asserts hs acts).log) := by
+  have si : SrvInv (reach asserts hs acts) := SrvInv.run asserts hs acts
+  have hhs : (reach asserts hs acts).hasServices = hs := (run_consts asserts hs acts).2
+  have hlt := si.lt_of_req hr
+  have hone := si.one r hlt
+  have hd := si.disp r m hr
+  rw [hhs] at hd
+  refine ⟨by omega, fun h => by omega, ?_, ?_, hd.1, hd.2, ?_, no_uaf_run asserts hs acts hsvc⟩
+  · intro h
+    have hpos : 0 < held r (reach asserts hs acts).closures := by omega
+    unfold held at hpos
+    rw [List.countP_pos_iff] at hpos
+    obtain ⟨c, hc, hcr⟩ := hpos
+    have hcr' : c.1 = r := by simpa using hcr
+    obtain ⟨m', a, _, c', d⟩ := si.clos c hc
+    rw [hcr', hr] at a
+    injection a with a
+    subst a
+    rw [hhs] at c'
+    exact ⟨d, by rw [c']; rfl⟩
+  · intro id p e he
+    obtain ⟨m', a, b, c⟩ := si.rep r id p e he
+    rw [hr] at a
+    injection a with a
+    subst a
+    rw [hhs] at c
+    exact ⟨b, c.symm⟩
+  · have := si.freeSrv r
+    omega
+
+/-- the part of `one_reply` that does not need the hypothesis on the service: in the model a second
+invocation of a done-callback is a use-after-free event, not a second reply -/
+theorem at_most_one_reply (r : Nat) : replyCount r (reach asserts hs acts).log ≤ 1 := by
+  have si : SrvInv (reach asserts hs acts) := SrvInv.run asserts hs acts
+  by_cases hlt : r < (reach asserts hs acts).nextReq
+  · have := si.one r hlt; omega
+  · have := (si.unborn r (by omega)).2.1; omega
+
+/-- every REQUEST the channel handled has a request number (so `one_reply` speaks about every request),
+and the numbered requests are exactly the REQUESTs that arrived -/
+theorem requests_numbered :
+    (∀ m, Ev.arrived m ∈ (reach asserts hs acts).log → m.type = .REQUEST → ∃ r, (reach asserts hs acts).reqs r = some m) ∧
+    (∀ r m, (reach asserts hs acts).reqs r = some m →
+      r < (reach asserts hs acts).nextReq ∧ m.type = .REQUEST ∧ Ev.arrived m ∈ (reach asserts hs acts).log) := by
+  have si : SrvInv (reach asserts hs acts) := SrvInv.run asserts hs acts
+  refine ⟨si.numbered, ?_⟩
+  intro r m h
+  have hlt := si.lt_of_req h
+  obtain ⟨m', a, b, c⟩ := si.known r hlt
+  rw [h] at a
+  injection a with a
+  subst a
+  exact ⟨hlt, b, c⟩
+
+/-- the process stops only for the reason of finding C19-F1: a build with `assert`, and the last message
+was a RESPONSE with neither payload nor error; `abort` is logged exactly then -/
+theorem halts_only_on_bare_response :
+    ((reach asserts hs acts).halted = true → asserts = true ∧
+      ∃ m rest, (reach asserts hs acts).log = Ev.abort :: Ev.arrived m :: rest ∧ m.type = .RESPONSE ∧ ¬ m.wellFormed) ∧
+    ((reach asserts hs acts).halted = false → Ev.abort ∉ (reach asserts hs acts).log) := by
+  have hi : HaltInv (reach asserts hs acts) := HaltInv.run asserts hs acts
+  refine ⟨?_, hi.noAbort⟩
+  intro h
+  obtain ⟨a, _, b⟩ := hi.halt h
+  rw [(run_consts asserts hs acts).1] at a
+  exact ⟨a, b⟩
+
+end
+
+/-- what `expected` says, case by case: no services or unknown service → NO_SERVICE; unknown method →
+NO_METHOD; request does not parse → INVALID_REQUEST; else the service's answer to the parsed request -/
+theorem expected_spec (hs : Bool) (m : Msg) :
+    ((hs = false ∨ m.serviceFound = false) → expected hs m = (none, some .NO_SERVICE)) ∧
+    (hs = true → m.serviceFound = true → m.meth = none → expected hs m = (none, some .NO_METHOD)) ∧
+    (hs = true → m.serviceFound = true → m.meth.isSome = true → m.request.parse = none →
+      expected hs m = (none, some .INVALID_REQUEST)) ∧
+    (∀ p, hs = true → m.serviceFound = true → m.meth.isSome = true → m.request.parse = some p →
+      expected hs m = (some p, none)) := by
+  obtain ⟨ty, id, pl, er, sf, me, rq⟩ := m
+  cases hs <;> cases sf <;> cases me <;> cases rq <;> simp [expected, Body.parse]
+
+/-- `RpcServer`: after any history of connections coming up, going down and channel steps, a connection
+has at most one channel, and that channel is a reachable state of a channel with services - every theorem
+above holds for it; a step on one connection leaves every other connection's channel alone -/
+theorem server_channels (asserts : Bool) (ops : List SrvOp) :
+    ((Server.runOps asserts ops).chans.map Prod.fst).Nodup ∧
+    (∀ c ch, (Server.runOps asserts ops).chan? c = some ch → ∃ acts, ch = reach asserts true acts) ∧
+    (∀ c c' a, c' ≠ c → ((Server.runOps asserts ops).act c a).chan? c' = (Server.runOps asserts ops).chan? c') := by
+  have h := ServerInv.runOps asserts ops
+  refine ⟨h.one, ?_, fun c c' a hne => Server.act_other _ c c' a hne⟩
+  intro c ch hc
+  unfold Server.chan? at hc
+  cases hf : (Server.runOps asserts ops).chans.find? (fun e => e.1 = c) with
+  | none => rw [hf] at hc; cases hc
+  | some e =>
+    rw [hf] at hc
+    injection hc with hc
+    obtain ⟨acts, ha⟩ := h.reach e (List.mem_of_find?_eq_some hf)
+    exact ⟨acts, by rw [← hc]; exact ha⟩
+
+/-! ### finding C19-F1: a bare RESPONSE aborts an asserts-on build -/
+
+/-- the full statement of "exactly once when a response with its id arrives": no hypothesis on the build
+flavour or on the message -/
+def complete_once_full : Prop :=
+  ∀ (asserts hs : Bool) (acts : List Act) (post pre : List Ev) (m : Msg) (k : Nat),
+    (reach asserts hs acts).log = post ++ Ev.arrived m :: pre → m.type = .RESPONSE →
+    Ev.sent m.id k ∈ pre → ranCount k pre = 0 →
+    (Ev.ran k m.id (m.payload.bind Body.parse) ∈ post ∧ ranCount k (reach asserts hs acts).log = 1) ∨
+    (reach asserts hs acts).pending = some (k, m)
+
+/-- corpus/C19/F1-bare-response-asserts.case (and bare-response-ndebug.case): two calls; a RESPONSE for
+id 1 with neither payload nor error; a good RESPONSE for id 2 -/
+def f1Acts : List Act :=
+  [.callBegin, .callInsert 0, .callSend 0, .callBegin, .callInsert 1, .callSend 1,
+   .recv { type := .RESPONSE, id := 1 }, .finish,
+   .recv { type := .RESPONSE, id := 2, payload := some (.ok 5) }, .finish]
+
+/-- the witness on the model: with `assert` the process halts at the bare RESPONSE, neither call ever
+completes, both stay registered; without, both complete once, the first with an untouched response object -/
+theorem f1_witness :
+    (reach true false f1Acts).halted = true ∧
+    ranCount 0 (reach true false f1Acts).log = 0 ∧ ranCount 1 (reach true false f1Acts).log = 0 ∧
+    (reach true false f1Acts).outstanding = [(2, 1), (1, 0)] ∧
+    (reach true false f1Acts).log =
+      [.abort, .arrived { type := .RESPONSE, id := 1 }, .sent 2 1, .sent 1 0] ∧
+    (reach false false f1Acts).halted = false ∧
+    Ev.ran 0 1 none ∈ (reach false false f1Acts).log ∧ Ev.ran 1 2 (some 5) ∈ (reach false false f1Acts).log ∧
+    ranCount 0 (reach false false f1Acts).log = 1 ∧ ranCount 1 (reach false false f1Acts).log = 1 ∧
+    (reach false false f1Acts).outstanding = [] := by
+  decide
+
+/-- **negation witness**: the full statement is false on the code as it is -/
+theorem complete_once_full_false : ¬ complete_once_full := by
+  intro h
+  have := h true false f1Acts [.abort] [.sent 2 1, .sent 1 0] { type := .RESPONSE, id := 1 } 0
+    (by decide) rfl (by decide) (by decide)
+  revert this
+  decide
+
+/-- the defect in general: whenever the loop thread is idle in a build with `assert`, a RESPONSE with
+neither payload nor error - whatever its id - stops the process: nothing is erased, and from then on no
+step does anything, so no outstanding call completes any more -/
+theorem bare_response_aborts (hs : Bool) (acts rest : List Act) (m : Msg)
+    (hn : (reach true hs acts).halted = false) (hp : (reach true hs acts).pending = none)
+    (ht : m.type = .RESPONSE) (hw : ¬ m.wellFormed) :
+    (reach true hs (acts ++ .recv m :: rest)).halted = true ∧
+    (reach true hs (acts ++ .recv m :: rest)).log = Ev.abort :: Ev.arrived m :: (reach true hs acts).log ∧
+    (reach true hs (acts ++ .recv m :: rest)).outstanding = (reach true hs acts).outstanding ∧
+    (∀ k, ranCount k (reach true hs (acts ++ .recv m :: rest)).log = ranCount k (reach true hs acts).log) := by
+  have ha : (reach true hs acts).asserts = true := (run_consts true hs acts).1
+  obtain ⟨h1, h2, h3⟩ := bare_response_halts (reach true hs acts) m hn hp ha ht hw
+  have hrun : reach true hs (acts ++ .recv m :: rest) = rest.foldl step (step (reach true hs acts) (.recv m)) := by
+    simp [reach, run, List.foldl_append]
+  rw [hrun, foldl_halted rest _ h1]
+  refine ⟨h1, h2, h3, ?_⟩
+  intro k
+  rw [h2, ranCount_cons_foreign k _ _ rfl, ranCount_cons_foreign k _ _ rfl]
+
+/-! ### the hypotheses are satisfiable, the statements are not vacuous -/
+
+/-- `complete_once_partial` on the NDEBUG run of the corpus case: the second call is completed by the
+response with id 2, with payload 5 -/
+example : ∃ post pre m k, (reach false false f1Acts).log = post ++ Ev.arrived m :: pre ∧ m.type = .RESPONSE ∧
+    Ev.sent m.id k ∈ pre ∧ ranCount k pre = 0 ∧ m.wellFormed ∧ Ev.ran k m.id (some 5) ∈ post :=
+  ⟨[.free (.resp 1), .ran 1 2 (some 5), .parse 1],
+    [.free (.resp 0), .ran 0 1 none, .arrived { type := .RESPONSE, id := 1 }, .sent 2 1, .sent 1 0],
+    { type := .RESPONSE, id := 2, payload := some (.ok 5) }, 1,
+    by decide, rfl, by decide, by decide, by decide, by decide⟩
+
+/-- `response_completes_partial` applies to a call that is inserted but whose REQUEST frame has not left
+yet (the peer guessed the id), in the build with `assert`, for a RESPONSE that carries an error only -/
+example : Registered (reach true false [.callBegin, .callInsert 0]) 0 ∧
+    (reach true false [.callBegin, .callInsert 0]).idOf 0 = 1 ∧
+    ranCount 0 (reach true false [.callBegin, .callInsert 0]).log = 0 ∧
+    (reach true false [.callBegin, .callInsert 0]).pending = none ∧
+    (reach true false [.callBegin, .callInsert 0]).halted = false ∧
+    Ev.sent 1 0 ∉ (reach true false [.callBegin, .callInsert 0]).log ∧
+    Msg.wellFormed { type := .RESPONSE, id := 1, err := some 6 } := by
+  decide
+
+/-- a duplicate of an answered id and an id that was never handed out satisfy the hypothesis of
+`no_foreign_completion` -/
+example : (reach false false f1Acts).pending = none ∧
+    ∀ i, i = 2 ∨ i = 7 → ∀ k, k < 2 → Registered (reach false false f1Acts) k → (reach false false f1Acts).idOf k = i →
+      1 ≤ ranCount k (reach false false f1Acts).log := by
+  refine ⟨by decide, ?_⟩
+  intro i hi k hk
+  have : k = 0 ∨ k = 1 := by omega
+  rcases this with h | h <;> subst h <;> rcases hi with h | h <;> subst h <;> decide
+
+/-- a server history: a synchronous request, a deferred one answered later, an unknown method -/
+def srvActs : List Act :=
+  [.recv { type := .REQUEST, id := 7, serviceFound := true, meth := some .sync, request := .ok 100 },
+   .recv { type := .REQUEST, id := 7, serviceFound := true, meth := some .defer, request := .ok 101 },
+   .recv { type := .REQUEST, id := 9, serviceFound := true, meth := none, request := .ok 103 },
+   .fireDone 1]
+
+example : ServiceDoneOnce true true srvActs := by
+  intro pre r post h
+  unfold srvActs at h
+  rcases cons_split h with ⟨_, h2, _⟩ | ⟨p1, e1, h⟩
+  · cases h2
+  rcases cons_split h with ⟨_, h2, _⟩ | ⟨p2, e2, h⟩
+  · cases h2
+  rcases cons_split h with ⟨_, h2, _⟩ | ⟨p3, e3, h⟩
+  · cases h2
+  rcases cons_split h with ⟨e4, h2, _⟩ | ⟨p4, e4, h⟩
+  · injection h2 with h2
+    subst h2
+    rw [e1, e2, e3, e4]
+    decide
+  · simp at h
+
+example : (reach true true srvActs).log =
+    [.free (.srvResp 1), .reply 1 7 (some 101) none,
+     .reply 2 9 none (some .NO_METHOD), .arrived { type := .REQUEST, id := 9, serviceFound := true, meth := none, request := .ok 103 },
+     .dispatch 1 101, .arrived { type := .REQUEST, id := 7, serviceFound := true, meth := some .defer, request := .ok 101 },
+     .free (.srvResp 0), .reply 0 7 (some 100) none, .dispatch 0 100,
+     .arrived { type := .REQUEST, id := 7, serviceFound := true, meth := some .sync, request := .ok 100 }] := by
+  decide
+
+/-- a second invocation of a done-callback violates `ServiceDoneOnce`, and the model shows the use after free -/
+example : ¬ ServiceDoneOnce true true (srvActs ++ [.fireDone 1]) ∧
+    Ev.uaf (.closure 1) ∈ (reach true true (srvActs ++ [.fireDone 1])).log := by
+  refine ⟨?_, by decide⟩
+  intro h
+  have := h srvActs 1 [] rfl
+  revert this
   decide
 
 end MuduoVerif.C19
